@@ -10,6 +10,7 @@ use varpro::statistics::FitStatistics;
 pub struct StatsOut<T: HScalar> {
     pub cov: DMatrix<T>,
     pub corr: DMatrix<T>,
+    pub corr_deprecated: DMatrix<T>,
     pub wres: DVector<T>,
     pub chi2: T,
     pub rse: T,
@@ -48,6 +49,8 @@ pub trait Prob<T: HScalar>: Sized {
     fn p_model(&self) -> &Wrap<T>;
     fn p_weights_unit(&self) -> bool;
     fn p_into_seq(self) -> Self::Seq;
+    /// LevMarProblem::into_parallel (which, on the pinned tree, yields the sequential flavour for every input flavour)
+    fn p_into_par(self) -> Self::Seq;
     fn p_fit(self, solver: Option<LevenbergMarquardt<T>>) -> FitOut<T, Self::Seq>;
     /// None when the flavour has no fit_with_statistics
     fn p_fit_stats(
@@ -80,10 +83,12 @@ fn fitout_from<T: HScalar, const MRHS: bool>(
     }
 }
 
+#[allow(deprecated)]
 fn stats_out<T: HScalar>(s: FitStatistics<Wrap<T>>) -> StatsOut<T> {
     StatsOut {
         cov: s.covariance_matrix().clone(),
         corr: s.calculate_correlation_matrix(),
+        corr_deprecated: s.correlation_matrix(),
         wres: s.weighted_residuals(),
         chi2: s.reduced_chi2(),
         rse: s.regression_standard_error(),
@@ -123,6 +128,9 @@ macro_rules! impl_prob_common {
         }
         fn p_into_seq(self) -> Self::Seq {
             self.into_sequential()
+        }
+        fn p_into_par(self) -> Self::Seq {
+            self.into_parallel()
         }
     };
 }
